@@ -269,3 +269,12 @@ func Diff(before, after []string) []string {
 
 // Text joins lines.
 func Text(lines []string) string { return strings.Join(lines, "\n") }
+
+// Lines2 renders one value (at most 12 leaves) for reports.
+func Lines2(v interface{}) []string {
+	l := Roots{{Name: "doc", V: v}}.Lines()
+	if len(l) > 12 {
+		l = append(l[:12], "…")
+	}
+	return l
+}
